@@ -377,6 +377,25 @@ Fixpoint cmapM {X Y} (f : X -> comp Y) (l : list X) : comp (list Y) :=
 Definition py_listcomp (f : pv -> comp pv) (items : list pv) : comp pv :=
   let* l := cmapM f items in Ret (YList l).
 
+(* len(list(c)) without building the list *)
+Definition py_count (c : pv) : comp Z :=
+  match c with
+  | YTuple l | YList l => Ret (Z.of_nat (List.length l))
+  | YDict l => Ret (Z.of_nat (List.length l))
+  | YRange a b s => Ret (range_len a b s)
+  | _ => Raise TypeError
+  end.
+
+(* [e for _ in c] where e does not mention the loop variable (and has no effect but raising): e is evaluated
+   once if c is not empty, not at all if it is; the result holds that one value len(c) times *)
+Definition py_const_comp (body : comp pv) (c : pv) : comp pv :=
+  let* n := py_count c in
+  Branch (0 <? n) (let* y := body in Ret (YList (repeat y (Z.to_nat n)))) (Ret (YList [])).
+
+(* the same when e is a plain value (nothing to evaluate, nothing can be raised) *)
+Definition py_repeat (v c : pv) : comp pv :=
+  let* n := py_count c in Ret (YList (repeat v (Z.to_nat n))).
+
 (* ---------------------------------------------------------------- small lemmas *)
 
 Lemma cmapM_const {X Y} (y : Y) : forall l : list X, cmapM (fun _ => Ret y) l = Ret (repeat y (List.length l)).
